@@ -512,6 +512,24 @@ func (w *World) destination(m *MsgSpec, kind, issuer string) (string, bool) {
 			other = EPSSO
 		}
 		return w.IDPModel.Location(other, issuer), true
+	case "other-host":
+		// the location this IdP advertises to requests that arrive under a different host
+		h := hostMarker(7) + ".idp.example"
+		if strings.HasPrefix(hostFor(m, &w.cfg.IDP), hostMarker(7)) {
+			h = hostMarker(8) + ".idp.example"
+		}
+		for i := 0; i < 3; i++ {
+			if cand := hostMarker(i) + ".idp.example"; !strings.Contains(issuer, cand) {
+				h = cand
+				break
+			}
+		}
+		hdr := http.Header{}
+		hdr.Set("Forwarded", "host="+h)
+		for _, n := range w.cfg.IDP.Headers {
+			hdr.Set(n, "host="+h)
+		}
+		return w.IDPModel.Location(kind, w.IDPModel.Issuer(h, hdr)), true
 	case "foreign":
 		return "https://evil.example/SSO", true
 	case "case":
@@ -935,6 +953,34 @@ func (w *World) encodeFrontChannel(t *Task, m *MsgSpec, sp *SPNode, s *Sent, xml
 		s.RawQuery = q
 		if vals, err := url.ParseQuery(q); err == nil {
 			s.Params = vals
+		}
+		if m.Method == "POST-override" {
+			// the signed redirect URL is replayed as a form POST whose body carries another message and RelayState
+			evil := doc
+			if root, err := ParseXML([]byte(doc)); err == nil {
+				for i := range root.Attrs {
+					if root.Attrs[i].Local == "ID" {
+						root.Attrs[i].Value = "_evil" + root.Attrs[i].Value
+					}
+				}
+				evil = serialize(root)
+			}
+			s.Method = "POST"
+			s.ContentType = "application/x-www-form-urlencoded"
+			body := "SAMLRequest=" + pctEncode(base64.StdEncoding.EncodeToString(deflateRaw([]byte(evil), level)), 0)
+			if mod(len(m.ID), 2) == 0 {
+				body += "&RelayState=" + pctEncode("https://evil.example/landing", 0)
+			}
+			s.Body = []byte(body)
+			s.XML = evil
+			w.notConformant(s, "tampered")
+			w.fire("tamper_body_override")
+			if bv, err := url.ParseQuery(body); err == nil {
+				for k, v := range s.Params {
+					bv[k] = append(bv[k], v...)
+				}
+				s.Params = bv
+			}
 		}
 		if m.Method == "POST-move" {
 			// cross-binding move: the redirect-encoded parameters are submitted as a POST form
